@@ -153,7 +153,11 @@ class ConcRun:
 
     def state_of(self, w):
         o = observe_collection(w, CAL)
-        return (o.fingerprint(),)
+        if self.prop != "C17":
+            return (o.fingerprint(),)
+        names = sorted(o.members) + ["m0.ics", "new0.ics", "new1.ics"]
+        r = w.req("REPORT", CAL, [dav.XML_CT, ("Depth", "1")], dav.multiget_body("calendar", [w.target(CAL + n) for n in sorted(set(names))]))
+        return (o.fingerprint(), self.summarize("REPORT", r))
 
     def _run(self):
         plan = self.plan or self.make_plan()
